@@ -309,6 +309,9 @@ func (bucket *Bucket) dropCollection(name sgbucket.DataStoreNameImpl) error {
 	bucket.mutex.Lock()
 	defer bucket.mutex.Unlock()
 
+	if bucket.closed {
+		return ErrBucketClosed // ...before anything is stopped: a refused call changes nothing
+	}
 	if c := bucket.collections[name]; c != nil {
 		c.close()
 		delete(bucket.collections, name)
